@@ -53,9 +53,9 @@ def setPrefix (l : Line) (cpos : Int) : G (List Nat) := do
   if b < 0 ∨ c > len l ∨ b > c then throw (.oob "prefix slice")
   return trimS ((l.drop b.toNat).take (c - b).toNat)
 
-/-- insertCandidate: the guard compares *byte* lengths, the cursor arithmetic counts runes -/
+/-- insertCandidate: the guard and the cursor arithmetic count runes -/
 def insertCandidate (l : Line) (cpos : Int) (pfx value : List Nat) : G (Line × Int) := do
-  if (utf8 value).length < (utf8 pfx).length then return (l, cpos)
+  if value.length < pfx.length then return (l, cpos)
   let plen : Int := pfx.length
   -- compCursor.Move(-len(prefix)) clamps
   let p := cpos - plen
